@@ -144,22 +144,18 @@ def run(ctx):
 
     # ---------------------------------------------------------------- C08.SIGN
     pf = ctx.facts(tzp)
-    sigs = [n for n in pcfg.live_nodes() if n.kind == "stmt" and isinstance(n.ast, ast.Assign) and src(n.ast.targets[0]) == "signal"]
-    posix, dateutil_ = [], []
-    for n in sigs:
-        v = n.ast.value
-        if isinstance(v, ast.Subscript) and isinstance(v.value, ast.Tuple):
-            tup = [src(e) for e in v.value.elts]
-            idx = src(v.slice).replace(" ", "").replace('"', "'")
-            plus = tup[1] if idx == "l[i]=='+'" else None
-            (posix if plus == "-1" else dateutil_).append(("table", tup, idx))
-        else:
-            (posix if src(v) == "-1" else dateutil_).append(("bare", src(v)))
-    ctx.ob("C08.SIGN", tzp, "POSIX offsets are inverted: '+' -> -1 and an unsigned offset -> -1 (hours WEST of UTC)",
-           sorted(p[0] for p in posix) == ["bare", "table"] and all(p[1] == ["1", "-1"] for p in posix if p[0] == "table"), construct="POSIX offset sign", detail=str(posix), analysis="CMP sign table")
-    ctx.ob("C08.SIGN", tzp, "the dateutil-specific trailing delta is not inverted: '+' -> +1, unsigned -> +1",
-           sorted(p[0] for p in dateutil_) == ["bare", "table"] and all(p[1] == ["-1", "1"] for p in dateutil_ if p[0] == "table") and all(p[1] == "1" for p in dateutil_ if p[0] == "bare"),
-           construct="trailing delta sign", detail=str(dateutil_), analysis="CMP sign table")
+    from ..rules_common import sign_cases
+    cases, n_s = sign_cases(ctx, "C08.SIGN", tzp, lambda ef: ef[0] == "call" and ef[1] == "setattr", lambda ef: ef[2].args[2])
+    want = {("plus", "-1"), ("minus", "+1"), ("bare", "-1")}
+    got = set((c, s_) for _, c, s_ in cases)
+    ctx.ob("C08.SIGN", tzp, "POSIX offsets are inverted: '+' -> -1, '-' -> +1 and an unsigned offset -> -1 (hours WEST of UTC)", got == want and n_s >= 3,
+           construct="POSIX offset sign", detail="" if got == want else "sign of the stored offset per sign character: %s" % sorted(got), analysis="guarded normal form of the sign region + polynomial sign")
+    cases2, n_s2 = sign_cases(ctx, "C08.SIGN", tzp, lambda ef: ef[0] == "store" and ef[1].endswith(".dstoffset") and "stdoffset" in src(ef[2]), lambda ef: ef[2],
+                              ignore_atoms=lambda a: "stdoffset" in a)
+    want2 = {("plus", "+1"), ("minus", "-1"), ("bare", "+1")}
+    got2 = set((c, s_) for _, c, s_ in cases2)
+    ctx.ob("C08.SIGN", tzp, "the dateutil-specific trailing delta is not inverted: '+' -> +1, '-' -> -1, unsigned -> +1", got2 == want2 and n_s2 == 1,
+           construct="trailing delta sign", detail="" if got2 == want2 else "sign of the delta per sign character: %s" % sorted(got2), analysis="guarded normal form of the sign region + polynomial sign")
     inv = [n for n in cfg.live_nodes() if n.kind == "stmt" and isinstance(n.ast, ast.AugAssign) and src(n.ast.target) == rname + ".stdoffset"]
     oki = len(inv) == 1 and isinstance(inv[0].ast.op, ast.Mult) and src(inv[0].ast.value) == "-1" and \
         ("posix_offset", False) in facts.at(inv[0]) and any(tv and "stdabbr in ('GMT', 'UTC')" in t for t, tv in facts.at(inv[0]))
